@@ -3,6 +3,7 @@ package gmtls
 import (
 	"bytes"
 	"crypto/ecdsa"
+	"crypto/sha512"
 	"errors"
 
 	"github.com/tjfoc/gmsm/sm2"
@@ -143,9 +144,11 @@ func zzTISha512(b []byte) [64]byte {
 //verif:unwind 100
 func zzH_c16_ticket_keys() {
 	expect := func(b [32]byte) ticketKey {
-		h := zzTISha512(b[:])
+		var h [64]byte
 		if vNative() {
-			return ticketKeyFromBytes(b)
+			h = sha512.Sum512(b[:])
+		} else {
+			h = zzTISha512(b[:])
 		}
 		var k ticketKey
 		copy(k.keyName[:], h[:16])
